@@ -32,7 +32,7 @@ NOTES = {
             'known findings: "." separator collisions (C13-1), UpdateItem may rewrite a key attribute (C13-2, the existing suite relies on it), BatchGetItem keeps malformed keys as unprocessed (C13-3)'),
     'C20': ('registration key equality <=> same word sequence under the four white-space characters of the language, for every table name and expression (length-prefixed key, injective); exact dispatch; fallback on a miss; update miss = Unsupported with the table untouched', ''),
     'C19': ('a batch of succeeding write requests = the fold of the single operations (one table, several tables); closure without hypotheses: a BatchWriteItem that answers success with nothing unprocessed has left exactly the fold of its single requests, each succeeding where it is performed; the up-front validation alone decides which batches succeed; BatchGetItem answers per table with exactly the items of the individual GetItem calls; an invalid table entry or an unknown table rejects the whole call', 'known findings: absent keys and malformed keys are reported as unprocessed (the existing suite relies on it); the SDK v1 client has no BatchGetItem'),
-    'C16': ('reserved words (573, generated) rejected in every token position of every expression of a request, in any letter case; undefined, unused and malformed placeholders; batch limit 25 exact in both clients; write-request shape', 'known findings C16-1..3 (placeholder usage is a substring test, key-condition shape unchecked)'),
+    'C16': ('a well-formed batch of any reachable client is never rejected; reserved words (573, generated) rejected in every token position of every expression of a request, in any letter case; undefined, unused and malformed placeholders; batch limit 25 exact in both clients; write-request shape', 'known findings C16-1..3 (placeholder usage is a substring test, key-condition shape unchecked)'),
     'C18': ('table frame (an operation on table A leaves table B untouched), ItemCount = number of stored items in every reachable state', ''),
 }
 
